@@ -20,6 +20,7 @@ struct S {
 	uint64_t h = 0;
 	int switches = 0;
 	unsigned ser_rot = 0;
+	bool alias = false;
 	bool was_big = false, shrunk0 = false, grow_after0 = false, failed_set = false;
 	S(Ctx &c) : ctx(c) {}
 	void log(const std::string &s)
@@ -187,8 +188,44 @@ void run_case(Choices &c, Ctx &ctx)
 	{
 		SpanGuard g(c);
 		size_t cur = s.model.size();
-		switch (c.pick({10, 10, 2, 2, 1}))
+		switch (c.pick({10, 10, 2, 2, 1, 3}))
 		{
+		case 5: { // the source is memory the node itself hands out
+			int r;
+			std::string want;
+			switch (c.pickn(3))
+			{
+			case 0: {
+				// its own serialisation (a buffer owned by the node): the text is copied, whatever the set does to that buffer
+				const char *t = json_object_to_json_string_ext(s.j, c.coin(50) ? JSON_C_TO_STRING_PLAIN : JSON_C_TO_STRING_PRETTY);
+				want = t;
+				r = json_object_set_string(s.j, t);
+				s.log("set_string from the node's own serialisation (" + str(want.size()) + " bytes)");
+				break;
+			}
+			case 1:
+				// its own contents through set_string: strlen semantics cut the value at the first embedded NUL
+				want = std::string(s.model.c_str());
+				r = json_object_set_string(s.j, json_object_get_string(s.j));
+				s.log("set_string from the node's own contents");
+				break;
+			default: {
+				// a prefix of its own contents (same start address) with an explicit length
+				size_t n = cur ? c.pickn(cur + 1) : 0;
+				want = s.model.substr(0, n);
+				r = json_object_set_string_len(s.j, json_object_get_string(s.j), (int)n);
+				s.log("set_string_len to a " + str(n) + "-byte prefix of the node's own contents");
+				break;
+			}
+			}
+			if (r != 1)
+				ctx.fail("set-failed", "a set whose source is the node's own memory returned " + str(r));
+			if (want.size() > cur)
+				s.was_big = true;
+			s.model = want;
+			s.alias = true;
+			break;
+		}
 		case 0: { // set_string (strlen semantics: an embedded NUL in the source ends it)
 			size_t n = pick_len(c, cur);
 			std::string src = fill(c, n, true);
@@ -282,6 +319,8 @@ void run_case(Choices &c, Ctx &ctx)
 		ctx.label("two_threshold_crossings");
 	if (s.grow_after0)
 		ctx.label("grow_shrink0_grow");
+	if (s.alias)
+		ctx.label("source_is_the_nodes_own_memory");
 	if (s.failed_set)
 		ctx.label("failed_set");
 	if (s.switches >= 2 || s.grow_after0)
